@@ -132,7 +132,7 @@ fn apply_fault(b: &mut Vec<u8>, kind: u8, at: u16, arg: u16) {
 
 fn run_faults(ctx: &mut Ctx) {
     let cases = ctx.share(ctx.tier.pick(600_000, 8_000_000));
-    let p = ctx.tier.pick(TreeParams::small(), TreeParams::quick());
+    let p = ctx.tier.pick(TreeParams::small(), TreeParams::quick()).with_big(2);
     let strat = (arb_doc(p), vec((any::<u8>(), any::<u16>(), any::<u16>()), 1..5)).prop_map(|(m, faults)| {
         let mut b = m.enc();
         for (k, at, arg) in faults {
